@@ -20,13 +20,23 @@ mod kw {
     syn::custom_keyword!(vftable);
 }
 
+/// `r#name` and `name` are the same identifier unless `name` is a keyword: keep the raw
+/// prefix only where it is needed, so that the two spellings compare equal everywhere.
+fn ident_to_string(ident: &syn::Ident) -> String {
+    let spelt = ident.to_string();
+    match spelt.strip_prefix("r#") {
+        Some(plain) if syn::parse_str::<syn::Ident>(plain).is_ok() => plain.to_string(),
+        _ => spelt,
+    }
+}
+
 impl Parse for Ident {
     fn parse(input: ParseStream) -> Result<Self> {
         if input.peek(Token![_]) {
             input.parse::<Token![_]>()?;
             Ok(Ident("_".to_string()))
         } else if input.peek(syn::Ident) {
-            Ok(Ident(input.parse::<syn::Ident>()?.to_string()))
+            Ok(Ident(ident_to_string(&input.parse::<syn::Ident>()?)))
         } else {
             Err(input.error("expected identifier"))
         }
@@ -36,7 +46,7 @@ impl Parse for Ident {
 fn parse_type_ident(input: ParseStream) -> Result<String> {
     // dodgy hack to "support" generics for now
     let ident: syn::Ident = input.parse()?;
-    let mut name = ident.to_string();
+    let mut name = ident_to_string(&ident);
 
     loop {
         if input.peek(Token![<]) {
@@ -44,7 +54,7 @@ fn parse_type_ident(input: ParseStream) -> Result<String> {
             name += "<";
         } else if input.peek(syn::Ident) {
             let ident: syn::Ident = input.parse()?;
-            name += &ident.to_string();
+            name += &ident_to_string(&ident);
         } else if input.peek(Token![>]) {
             input.parse::<Token![>]>()?;
             name += ">";
